@@ -158,7 +158,11 @@ class RecProcess(Process):
     def update_condition(self, timestep, states):
         ctx = CTX.get(self.parameters['run_id'])
         script = self.parameters['cond']
-        ans = True if script is None else _pick(script, self.n_cond)
+        if self.condition_path:
+            # vivarium's own state-dependent condition (_condition parameter)
+            ans = Process.update_condition(self, timestep, states)
+        else:
+            ans = True if script is None else _pick(script, self.n_cond)
         self.n_cond += 1
         if ctx is not None:
             ctx.rec('cond', self.name, ctx.now(), timestep, ans)
@@ -847,3 +851,27 @@ class SpecComposer(_Composer):
 
     def generate_topology(self, config):
         return make_part(config['desc'], config['run_id'])[3]
+
+
+
+class Toggler(Process):
+    """Sets condition flags flags/<name> from scripts, one entry per call."""
+    defaults = {'run_id': 0, 'scripts': {}, 'time_step': 1.0}
+
+    def __init__(self, parameters=None):
+        super().__init__(parameters)
+        self.n_calls = 0
+
+    def ports_schema(self):
+        return {'flags': {n: {'_default': True, '_emit': True,
+                              '_updater': 'set'}
+                          for n in self.parameters['scripts']}}
+
+    def next_update(self, timestep, states):
+        i = self.n_calls
+        self.n_calls += 1
+        ctx = CTX.get(self.parameters['run_id'])
+        if ctx is not None:
+            ctx.rec('toggle', self.name, ctx.now(), i)
+        return {'flags': {n: _pick(sc, i)
+                          for n, sc in self.parameters['scripts'].items()}}
